@@ -114,6 +114,8 @@ pub enum Cmd {
     Poll,
     Cancel,
     Expire,
+    /// let time pass although no deadline applies, then poll
+    Tick,
     Exit,
 }
 
@@ -605,7 +607,7 @@ fn task_main(ix: usize, sh: Arc<Shared>, cmd_rx: Receiver<Cmd>, rep_tx: Sender<(
                 c.gate_outcome.set(Some(o));
                 drive(&c, &sh, &mut fut, &waker);
             }
-            Cmd::Expire => {
+            Cmd::Expire | Cmd::Tick => {
                 if let Some(rt) = rt.as_ref() {
                     rt.block_on(async { tokio::time::advance(Duration::from_secs(2)).await });
                 }
@@ -690,30 +692,23 @@ fn task_main(ix: usize, sh: Arc<Shared>, cmd_rx: Receiver<Cmd>, rep_tx: Sender<(
                         let mut n = 0usize;
                         let res = p.retain(|o: &Obj, m: Metrics| {
                             n += 1;
-                            // the predicate is user code: log the call, answer from the script
-                            let mut t = truth.lock().unwrap();
-                            let rec = CallRec {
-                                kind: CallKind::Pred,
-                                idx: n,
-                                obj: o.id,
-                                task: cc.ix as i32,
-                                by_op: cc.cur_op.get(),
-                                rc: m.recycle_count,
-                                rec: m.recycled.is_some(),
-                            };
-                            t.calls.push(rec);
-                            let rns = m.recycled.map(|r| t.ns(r));
-                            let info = t.info(o.id);
-                            if info.handouts > 0 && (info.last_rc != m.recycle_count || info.last_recycled_ns != rns) {
-                                let msg = format!("retain saw other metrics for object {} than Object::metrics reported", o.id);
-                                t.metric_faults.push(msg);
+                            {
+                                let mut t = truth.lock().unwrap();
+                                let rns = m.recycled.map(|r| t.ns(r));
+                                let info = t.info(o.id);
+                                if info.handouts > 0 && (info.last_rc != m.recycle_count || info.last_recycled_ns != rns) {
+                                    let msg = format!("retain saw other metrics for object {} than Object::metrics reported", o.id);
+                                    t.metric_faults.push(msg);
+                                }
                             }
-                            drop(t);
-                            // a stateful predicate: the n-th call is answered from the n-th entry of the script
-                            match cc.keep.borrow().as_ref() {
-                                Some(k) => k.get(n - 1).map(|b| *b != 0).unwrap_or(true),
-                                None => true,
+                            // the predicate is user code (possibly stateful): every call is a decision of the
+                            // environment, taken while the pool's lock is held by this walk
+                            let keep = !matches!(park_call(&truth, CallKind::Pred, n, o.id, Some(&m)), Outcome::Err);
+                            if !keep {
+                                // from here on the object is the caller's (it is in the RetainResult being built)
+                                truth.lock().unwrap().info(o.id).handed_over = true;
                             }
+                            keep
                         });
                         *cc.keep.borrow_mut() = None;
                         let removed: Vec<u32> = res.removed.iter().map(|o| o.id).collect();
@@ -940,7 +935,9 @@ impl World {
 
     /// some task is parked while holding the slots mutex
     pub fn lock_held(&self) -> bool {
-        self.ts.iter().any(|s| matches!(s, TState::AtPoint("m.resize.forget") | TState::AtPoint("m.resize.grow")))
+        self.ts.iter().any(|s| {
+            matches!(s, TState::AtPoint("m.resize.forget") | TState::AtPoint("m.resize.grow") | TState::AtCall { kind: CallKind::Pred, .. })
+        })
     }
 
     pub fn snapshot(&self) -> Snap {
